@@ -598,6 +598,58 @@ func (c *Client) Request(name string, payload interface{}) (*Reply, error) {
 	return nil, fmt.Errorf("no reply with req=%d to emitter/%s/ before the PUBACK", id, name)
 }
 
+// RequestMany pipelines the requests: all are written back to back (QoS 1, distinct packet ids), then the last PUBACK is
+// awaited (the connection goroutine serves them in order, so every reply precedes it); replies are matched by "req".
+// A request without a reply yields nil at its position.
+func (c *Client) RequestMany(name string, payloads []interface{}) ([]*Reply, error) {
+	c.DrainInto()
+	ids := make([]uint16, len(payloads))
+	var buf []byte
+	for i, p := range payloads {
+		body, _ := json.Marshal(p)
+		ids[i] = c.id()
+		buf = append(buf, mqttref.Publish(ids[i], "emitter/"+name+"/", body, 1, false)...)
+	}
+	if len(payloads) == 0 {
+		return nil, nil
+	}
+	if err := c.Send(buf); err != nil {
+		return nil, err
+	}
+	last := ids[len(ids)-1]
+	if _, _, err := c.await(func(p packets.ControlPacket) bool {
+		s, ok := p.(*packets.PubackPacket)
+		return ok && s.MessageID == last
+	}); err != nil {
+		return nil, err
+	}
+	out := make([]*Reply, len(payloads))
+	keep := c.inbox[:0]
+	for _, p := range c.inbox {
+		matched := false
+		if len(p.Topic) >= 8 && p.Topic[:8] == "emitter/" {
+			var f map[string]interface{}
+			if json.Unmarshal([]byte(p.Payload), &f) == nil {
+				if r, ok := f["req"].(float64); ok {
+					for i, id := range ids {
+						if uint16(r) == id && out[i] == nil {
+							st, _ := f["status"].(float64)
+							out[i] = &Reply{Topic: p.Topic, Status: int(st), Req: id, Raw: p.Payload, Fields: f}
+							matched = true
+							break
+						}
+					}
+				}
+			}
+		}
+		if !matched {
+			keep = append(keep, p)
+		}
+	}
+	c.inbox = keep
+	return out, nil
+}
+
 // TakeErrors removes emitter/error/ notifications from the inbox and returns them.
 func (c *Client) TakeErrors() []Reply {
 	var out []Reply
